@@ -150,6 +150,20 @@ func unsafeReason(head []hTerm, prems []hPrem, hasDo bool, doKeys []string) stri
 	for _, p := range prems {
 		switch p.kind {
 		case "atom":
+			if p.pred == ":list:member" {
+				// mode (?, +): the list needs a value; the element is tested when it has one and enumerated otherwise
+				if r := needBound(p.args[1], "the list of "+p.String()); r != "" {
+					return r
+				}
+				if a := p.args[0]; a.kind == "var" {
+					if a.name != "_" {
+						bind(a.name)
+					}
+				} else if r := needBound(a, "the element of "+p.String()); r != "" {
+					return r
+				}
+				continue
+			}
 			if p.pred == ":match_pair" || p.pred == ":match_cons" {
 				// mode (+, -, -): the scrutinee needs a value, the two outputs must be variables that have none yet
 				if r := needBound(p.args[0], "the scrutinee of "+p.String()); r != "" {
